@@ -29,6 +29,7 @@ import (
 	"hash/fnv"
 	"os"
 	"os/exec"
+	"path/filepath"
 	"regexp"
 	"runtime"
 	"runtime/debug"
@@ -93,7 +94,7 @@ func init() {
 			"(1) every callable discovered by reflection over starlark.Universe, AttrNames() of every receiver variant (string, bytes, list, dict, set, struct, time, duration; empty/non-empty/frozen/mid-iteration/self-containing) and the json/math/time module members, " +
 			"called with every positional tuple of length 0..2 over the 50-value edge pool, every triple over a 12-value (thorough: 20) sub-pool, and keyword lists (every accepted parameter name found by probing + one unknown name; singles over the full pool with 0..1 positional, pairs and duplicates over the sub-pool); " +
 			"(2) every token string of length <= 3 (thorough: <= 4) over the token alphabet derived from syntax.Token (all punctuation, all keywords, one reserved word, ident/int/float/string/bytes literals, newline, indenting newline, backslash-newline, comment, stray 0xff, NUL; all 16 reserved words at length <= 2) under FileOptions all-off and all-on, length <= 3 under all 64 FileOptions vectors, " +
-			"plus each recursive construct of the nesting family at depths 1,2,3,10,100,1000,10000 and the largest fitting 64 KiB; each text is parsed, resolved, compiled and executed by starlark.ExecFileOptions with json/math/time/struct predeclared and a 100000-step budget; " +
+			"plus each of ~55 recursive or repetitive constructs of the nesting family at depths 1,2,3,10,100,1000,10000 and the largest fitting 64 KiB, and its run-time members (json.decode/json.indent of texts nested n deep built by string repetition up to n=10^5 (thorough: 10^6) and one member at 10^7, recursion through def / sorted key / max key up to the 100000-frame limit with a 2*10^7 budget, values nested by a loop then printed, hashed, compared, frozen); each text is parsed, resolved, compiled and executed by starlark.ExecFileOptions with json/math/time/struct predeclared and a 100000-step budget; " +
 			"(3) every pointed graph with <= 3 nodes over {list, dict, tuple-with-list, struct-with-list, closure, module} with every edge assignment (all nodes reachable from the root), each built afresh and put through each operation. " +
 			"Oracle per case: returns normally (value or error), no recovered Go panic, no death of the worker process (classified from the runtime's own message; out-of-memory from one huge allocation is counted, not alarmed), ExecutionSteps() <= budget+1 on return. " +
 			"Every executed case is non-trivial in the sense that the implementation's code ran on it and the oracle judged its ending; stage counters say how far each got",
@@ -104,7 +105,7 @@ func init() {
 			"a call that would walk range(2^62) to the end (found by substituting a counting 4096-element sequence) is executed for real only for the representative shape (one positional argument, no keywords, representative receiver) under a 3 s watchdog; the other shapes are listed in notes as skipped; a watchdog kill is recorded as inconclusive, never as a verdict",
 			"after a case has killed the process, the remaining cases of its class are not executed: same callable and argument types; same nesting construct at greater depth; same graph operation on a graph whose cycles involve at least the node kinds of the killing graph's cycles (all cases of a class belong to one shard and run in a fixed order, so this is deterministic); the counts are reported in notes; with no deaths nothing is skipped",
 		},
-		BudgetQuick: 80, BudgetThorough: 1100,
+		BudgetQuick: 70, BudgetThorough: 1100,
 	})
 }
 
@@ -209,6 +210,8 @@ func hashString(s string) uint32 {
 
 func run(c *fw.Ctx) *fw.Stats {
 	e := newEnv(c.Thorough())
+	removeStale(fw.BinDir()+"/c02-dead-*", "c02-dead-")
+	removeStale("/dev/shm/c02-progress-*.bin", "c02-progress-")
 	deadFile := fmt.Sprintf("%s/c02-dead-%d.txt", fw.BinDir(), os.Getpid())
 	os.WriteFile(deadFile, nil, 0o644)
 	defer func() {
@@ -287,6 +290,27 @@ func run(c *fw.Ctx) *fw.Stats {
 	st := c.Sharded(nshards, onCrash, deadFile)
 	finish(c, st, nshards)
 	return st
+}
+
+// removeStale deletes run-state files left behind by a run that was killed:
+// the files carry the pid of their owner, which is no longer alive.
+func removeStale(pattern, prefix string) {
+	files, _ := filepath.Glob(pattern)
+	for _, f := range files {
+		base := filepath.Base(f)
+		rest := strings.TrimPrefix(base, prefix)
+		n := 0
+		for n < len(rest) && rest[n] >= '0' && rest[n] <= '9' {
+			n++
+		}
+		pid, err := strconv.Atoi(rest[:n])
+		if err != nil {
+			continue
+		}
+		if _, err := os.Stat(fmt.Sprintf("/proc/%d", pid)); err != nil {
+			os.Remove(f)
+		}
+	}
 }
 
 // finish turns the merged per-shard bookkeeping counters into Levels, Cut and
@@ -797,20 +821,30 @@ func (w *wk) setup() {
 	}
 }
 
+// probeKwAccepted calls the callable with name=None and 0, 1 and 2 positional
+// None arguments (so that arity checks made before the keyword check do not
+// hide it); the name counts as accepted unless one of the calls complains
+// about a keyword argument.
 func (w *wk) probeKwAccepted(cl *callable, name string) (accepted bool) {
 	defer func() {
 		if r := recover(); r != nil {
 			accepted = true // let the enumeration meet (and report) it as a case
 		}
 	}()
-	fn, done := cl.get()
-	defer done()
-	th := newThread(stepLimit, false)
-	_, err := starlark.Call(th, fn, nil, []starlark.Tuple{{starlark.String(name), starlark.None}})
-	if err == nil {
-		return true
+	for npos := 0; npos <= 2; npos++ {
+		fn, done := cl.get()
+		th := newThread(stepLimit, false)
+		args := make(starlark.Tuple, npos)
+		for i := range args {
+			args[i] = starlark.None
+		}
+		_, err := starlark.Call(th, fn, args, []starlark.Tuple{{starlark.String(name), starlark.None}})
+		done()
+		if err != nil && (strings.Contains(err.Error(), "unexpected keyword") || strings.Contains(err.Error(), "not accept keyword")) {
+			return false
+		}
 	}
-	return !strings.Contains(err.Error(), "keyword argument")
+	return true
 }
 
 // take advances the global case index and reports whether this worker has to
